@@ -20,6 +20,9 @@ ASSUMPTIONS = ["domain is phrased on the input: invalid schemes/hosts are not ge
 
 CMP = ["scheme", "raw_user", "user", "raw_password", "password", "raw_host", "host", "port", "raw_path", "path", "raw_query_string", "query_string", "raw_fragment", "fragment"]
 
+# parts also run by 4 threads at once in one process (runner adds the jobs; see yv/ctx.py Ctx.threaded)
+SHARED = [("random", {"n": 2500}, {"n": 50000})]
+
 
 def plan(tier, seed):
     thorough = tier == "thorough"
